@@ -273,7 +273,8 @@ def handle (req : Json) : Except String Json := do
     let text ← (← req.getObjVal? "text").getStr?
     let π := depOrderOfJ (req.getObjVal? "deps").toOption
     match loadString text with
-    | .error e => pure (errJ e.toString)
+    | .error e => pure (Json.mkObj [("ok", Json.bool false), ("err", jstr e.toString),
+        ("loader_agree", Json.bool (sameLoad (loadString text) (loadStringP text)))])
     | .ok ld =>
       let m := ld.model
       let lay := Impl.layout m π
@@ -297,6 +298,8 @@ def handle (req : Json) : Except String Json := do
         | .error _ => []
       let wfTrees := trees.filter Printer.WF
       pure (Json.mkObj ([("ok", Json.bool true), ("layout", layJ), ("topo_ref_agrees", Json.bool topoAgree),
+        ("loader_agree", Json.bool (sameLoad (loadString text) (loadStringP text))),
+        ("no_time_name", Json.bool (noTimeNameM m)),
         ("trees", Json.num trees.length), ("trees_wf", Json.num wfTrees.length),
         ("render_roundtrip", Json.bool (wfTrees.all Printer.roundTrips)), ("wf", Json.bool (checkModelWF m)),
         ("gen_rhs_valid", Json.bool (match lay, Impl.genRhs m π false, Impl.genRhs m π true with
